@@ -464,10 +464,10 @@ type stepCase struct {
 }
 
 type stats struct {
-	evals, nontrivial                  int
-	accepted, acceptedSentinel         int
+	evals, nontrivial                   int
+	accepted, acceptedSentinel          int
 	eligibleRejected, execFailedAfterOK int
-	seen                               map[string]bool
+	seen                                map[string]bool
 }
 
 type state struct {
